@@ -39,6 +39,13 @@ CLAIMS = {
             "the new cache is the watched-file map; hence a poll reports exactly the creations/deletions/mtime-or-size changes since the previous poll and polling twice reports nothing; "
             "the failure memory is the first-occurrence de-duplication of the run's failing ids, unchanged when collection failed",
             "fold invariant over the directory walk, finite-map extensionality (Lean 4) ; differential correspondence on a real scratch tree and the real RemoteControl.loop_once"),
+    "C10": ("Lean theorems about the DSession model, for EVERY scheduler (arbitrary interface), every event sequence and every budget: the replacement workers started are exactly "
+            "min(workers lost, budget) (negative budget = 0); zero disables replacement; the death that exceeds the budget records the documented summary, triggers shutdown of every "
+            "scheduled worker and starts nothing, and so does every later death; the default budget function (explicit, 4 per -n worker, else none)",
+            "invariant by induction over the controller loop, generic in the scheduler (Lean 4) ; whole-system simulation on the real DSession/NodeManager/WorkerController stack whose controller trace is replayed by the Lean model; differential check of the default-budget function"),
+    "C12": ("Lean theorems (any scheduler, any event sequence): replacement ids are gw k, gw k+1, ... in start order, so all worker ids of a run are pairwise distinct and never reused; "
+            "environment variables, fixtures, run uid and per-worker base temporary directories are validated on real runs (partial: not modelled)",
+            "counter invariant by induction over the controller loop (Lean 4) ; whole-system simulation with the real execnet id allocator and real WorkerController.setup; end-to-end pytest runs recording environment, fixtures, basetemp"),
 }
 
 NOT_YET = {}
